@@ -93,7 +93,23 @@ def histories(ck):
     # switches; such a history ends with the client sending a document and the server selecting it as root
     for _ in range(250 if quick else 30000):
         n = rng.choice([2, 3, 4])
-        h = [("edit", i, (), "class C%d;" % i) for i in range(n)] + [("root", rng.randrange(n), None, None)]
+        r0 = rng.randrange(n)
+        # every second such history starts without one of the files: includes of it resolve nowhere until it appears on disk
+        # (or is opened) later, while the texts of the files that include it stay as they are
+        absent = rng.choice([j for j in range(n) if j != r0]) if rng.random() < 0.5 else None
+        h = [("edit", i, (), "class C%d;" % i) for i in range(n) if i != absent] + [("root", r0, None, None)]
+        if absent is not None:
+            inc_abs = [v for v in variants(r0, n) if absent in v[0]]
+            if inc_abs:
+                h.append(("edit", r0, *rng.choice(inc_abs)))
+            other = [j for j in range(n) if j not in (r0, absent)]
+            if other and rng.random() < 0.6:
+                j = rng.choice(other)
+                vs_j = [v for v in variants(j, n) if absent in v[0]]
+                if vs_j:
+                    h.append(("edit", j, *rng.choice(vs_j)))
+                    h.append(("edit", r0, (j,), "class C%d;" % r0))
+            h.append(("disk", absent, (), "class C%d;" % absent))
         for _ in range(rng.randrange(3, 9)):
             i = rng.randrange(n)
             kind = rng.choice(["disk", "disk", "edit", "editroot", "root"])
